@@ -33,11 +33,15 @@ def one(patch, slot):
 
 
 if __name__ == "__main__":
-    ps = [os.path.abspath(p) for p in sys.argv[1:]]
+    summary = "--props" in sys.argv      # one line per patch: the properties that alarm
+    ps = [os.path.abspath(p) for p in sys.argv[1:] if p != "--props"]
     with cf.ThreadPoolExecutor(max_workers=12) as ex:
         futs = [ex.submit(one, p, "-mut%d" % (i % 12)) for i, p in enumerate(ps)]
         for f in futs:
             p, st, keys = f.result()
+            if summary:
+                print(p.replace("/tmp/", ""), st, ",".join(sorted({k.split("/")[0] for k in keys})))
+                continue
             print(p.replace("/tmp/", ""), st)
             for k in keys[:8]:
                 print("     ", k[:230])
